@@ -31,8 +31,8 @@ Present(x) == obj[x].d # 0
 NameBase(x) == CASE x = "a" -> 1000 [] x = "b" -> 3000 [] x = "c" -> 5000 [] OTHER -> 7000
 BaseBlk(x, i) == LET lead == TypeList[i][2]
                      n == ProdSeq(lead) * ProdSeq(Dims) * Pow(D, TypeList[i][1][1])
-                 IN [lead |-> lead, val |-> [m \in 1..n |-> IF ValMode = "token" THEN NameBase(x) + 100 * i + m
-                                                              ELSE (((NameBase(x) + 100 * i + m) * 7919) % 11) - 5]]
+                 IN [lead |-> lead, val |-> Eager([m \in 1..n |-> IF ValMode = "token" THEN NameBase(x) + 100 * i + m
+                                                              ELSE (((NameBase(x) + 100 * i + m) * 7919) % 11) - 5])]
 Fresh(x, ord) == [d |-> D, dims |-> Dims, torus |-> Torus,
                   order |-> [j \in 1..Len(ord) |-> TypeList[ord[j]][1]],
                   blks  |-> [j \in 1..Len(ord) |-> BaseBlk(x, ord[j])]]
